@@ -157,6 +157,7 @@ class Sched(object):
         self.root = root  # scratch directory of this execution (paths are relativised to it)
         self.locks = {}  # relpath -> pid holding
         self.fs = {}  # relpath -> content digest
+        self.vprocs = []  # (parent pid, VProcess) in start order: multiprocessing.active_children()
         self.writing = {}  # relpath -> pid between write-begin and write-end
         self.last_moved = None
         self.violations = []  # (signature, detail) raised by the layer itself
@@ -229,6 +230,7 @@ class Sched(object):
                     kwargs = copy.deepcopy(vp._kwargs)
                     child = self.spawn(vp._target, args, kwargs, group=getattr(vp._target, "__name__", "proc"))
                     vp._proc = child
+                    self.vprocs.append((p.pid, vp))
                     child.sem.release()
                     self.wake.acquire()
                     p.nops += 1
@@ -265,9 +267,17 @@ class Sched(object):
                     if vp._proc is not None and vp._proc.done:
                         self._resume(p, result=vp._proc.exitcode)
                         progress = True
+                elif k == "active_children":
+                    # no live child: nothing another process does can change the answer
+                    if not self._alive_children(p):
+                        self._resume(p, result=[])
+                        progress = True
                 elif k == "local":
                     self._resume(p)
                     progress = True
+
+    def _alive_children(self, p):
+        return [vp for (ppid, vp) in self.vprocs if ppid == p.pid and vp._proc is not None and not vp._proc.done]
 
     def enabled(self):
         acts = []
@@ -323,6 +333,9 @@ class Sched(object):
                 vp = op[1]
                 alive = vp._proc is not None and not vp._proc.done
                 acts.append(Action("%s:is_alive(%s)=%s" % (n, vp._pname(), alive), p, "is_alive", self._mk_res(p, alive), 1))
+            elif k == "active_children":
+                live = self._alive_children(p)
+                acts.append(Action("%s:active_children()=%d" % (n, len(live)), p, "active_children", self._mk_res(p, live), 1))
             elif k == "terminate":
                 vp = op[1]
                 acts.append(Action("%s:terminate(%s)" % (n, vp._pname()), p, "terminate", self._mk_terminate(p, vp), 1))
@@ -841,6 +854,14 @@ class Patched(object):
 
         os.unlink = unlink
         os.remove = unlink
+        self.real_active_children = multiprocessing.active_children
+
+        def active_children():
+            if current_proc() is None:
+                return []
+            return list(sched.op("active_children"))
+
+        multiprocessing.active_children = active_children
         return self
 
     def __exit__(self, *exc):
@@ -860,6 +881,7 @@ class Patched(object):
         ) = self.saved
         os.unlink = self.real_unlink
         os.remove = self.real_remove
+        multiprocessing.active_children = self.real_active_children
         CURRENT = None
         return False
 
